@@ -29,6 +29,27 @@ CHECKS = {
         design_ref="DESIGN.md §2 C02",
         note="Trusted: BLS (kyber bdn), SHA-256. Reference validator judges binding + signature + power, not block execution. Fast-sync path only at checkpoint heights (exempt by the property).",
     ),
+    "C15": dict(
+        engine="E-BFT",
+        category="exploration",
+        technique="runtime monitor of bounded progress: real bft.BFT replicas in virtual time, adversarial prefix then GST; verdict = commit within 4 honest-led, in-phase rounds",
+        text="Liveness cannot be decided by a finite run, so it is restated as bounded progress: after an adversarial prefix (locks on different values at different "
+             "(root height, round), replicas at different rounds/phases, Byzantine leaders, root-height resets, paused replicas) the network heals; every honest replica must commit "
+             "before 4 rounds have elapsed that were honest-led (>= +2/3 of honest power selected the same honest proposer) and in phase (all honest election votes within the "
+             "shortest phase wait of the round). Other rounds are counted and reported but do not count against the bound.",
+        design_ref="DESIGN.md §2 C15",
+        note="Bounded-progress restatement; virtual time only; lagging replicas obtain committed blocks by gossip after GST (the node's block-sync path is outside BFT rounds).",
+    ),
+    "C16": dict(
+        engine="E-STORE",
+        category="exploration",
+        technique="runtime monitor: completeness of store/SMT proofs against committed roots and soundness/robustness of VerifyProof over adversarial proof lists, ground truth = the key/value map",
+        text="Generated states (store level with 160-bit keys over several versions, SMT level with short keys) and for every key the honest proof must verify against the root "
+             "committed for that height; an adversarial list (honest proof for another key, wrong value, truncated/extended/reordered, bit-flipped and malformed node keys, proofs of "
+             "other versions, inner node as leaf) may be accepted only when the claim is true in the key/value map; a panic is a violation. Runs in child processes.",
+        design_ref="DESIGN.md §2 C16, §3 F4",
+        note="Trusted: SHA-256 (forgeries needing a collision are out of scope). Proofs are handed to the Go API (no wire decoder exists for them).",
+    ),
     "C17": dict(
         engine="E-P2P",
         category="fault_enumeration",
@@ -110,7 +131,7 @@ def main():
 
 NA = {}
 HOOK_COMMITS = ["bffe7c1"]
-FIX_COMMITS = ["ac69fcc"]
+FIX_COMMITS = ["ac69fcc", "f14e602", "7290d0d", "11d5f11", "edf91ea"]
 
 if __name__ == "__main__":
     main()
